@@ -98,8 +98,9 @@ def impl_one(case):
         r["count_mismatch"] = 1 if StringValidator.check_count_tag_group_parentheses(s) else 0
         # print / re-parse in the three forms
         rt = {}
-        for form, attr in (("str", "short_tag"), ("org", "org_tag"), ("short", "short_tag"), ("long", "long_tag")):
-            txt = str(hs) if form == "str" else hs.get_as_form(attr)
+        for form, attr in (("str", "short_tag"), ("org", "org_tag"), ("short", "short_tag"), ("long", "long_tag"),
+                           ("original", None)):
+            txt = str(hs) if form == "str" else (hs.get_as_original() if form == "original" else hs.get_as_form(attr))
             hs2 = HedString(txt, _sch)
             # equal tree = same nesting and, tag by tag, the same canonical short AND long form
             rt[form] = (shape_of(hs2.children, "short_tag") == shape_of(hs.children, "short_tag")
